@@ -23,7 +23,7 @@ RULE = ('Hypothesis rule-based state machines drive (1) SEQUENCE OF / SET OF obj
         'cloned, against a dict over field-0, field-1, ... (len, keys, values, items, iteration, in, reads, DER). (6) Assignment and '
         'reading by tag with innerFlag=True through CHOICEs nested three deep, against a dict. Non-trivial = a mutator after clear / reset / clone, or a reader between two '
         'mutators; distinct = distinct histories.')
-RULE += (' ' + 'Also: placeholders left pending, clone through subtype(cloneValueFlag=), deep clones of containers holding empty containers, occupants of a subtype overwritten, comparison with other containers, free-form records of a dozen members.')
+RULE += (' ' + 'Also: placeholders left pending, clone through subtype(cloneValueFlag=), deep clones of containers holding empty containers, occupants of a subtype overwritten, comparison with other containers, free-form records of a dozen members. Also: names spelled by instances of a str subclass.')
 ASSUMPTIONS = ['model decisions are those of DESIGN.md Appendix A (documented auto-instantiating accessors are modelled as such)']
 SHARDS = {'quick': {'of': (6, 120), 'record': (5, 120), 'choice': (4, 120), 'dynrec': (1, 600)},
           'thorough': {'of': (6, 2500), 'record': (5, 2500), 'choice': (4, 2500), 'dynrec': (1, 20000)}}
